@@ -108,7 +108,7 @@ def decode(v):
 def spec_namespace(ms):
     from . import api
 
-    ns = {'implies': api.implies, 'rev': api.rev}
+    ns = {'implies': api.implies, 'rev': api.rev, 'val': api.val}
     for name, f in ms.folds.items():
         ns[name] = f.native
     ns.update(ms.natives)
